@@ -213,7 +213,7 @@ structure W where
   nsock : Nat := 0
   npair : Nat := 0
   nfork : Nat := 0
-  alNext : Nat := 0
+  alNext : Nat := 1        -- arglist id 0 means "no arglist" (login and ping actions)
   sys : List Sys := []
   caps : List (Nat × Int) := []
   exited : Bool := false
